@@ -23,6 +23,12 @@ RULE = ("BQMs (float64/float32/object dtype, object models with Python float or 
         "a sample set nested inside other JSON data through DimodEncoder/DimodDecoder; the other model classes (QuadraticModel, "
         "ConstrainedQuadraticModel incl. soft and discrete constraints, DiscreteQuadraticModel, BinaryPolynomial, Variables) through the "
         "copy/pickle routes each class offers, compared field by field by the worker incl. independence of the copy (6% of the cases). "
+        "Round 5: MULTI-STEP independence - whatever came back from any route (BQM: ser*, pickle, deepcopy, copy, .copy(), every storage "
+        "incl. views; sample sets: serializable, encoder, pickle, deepcopy, .copy()) is then relabelled / gets a variable added and removed / "
+        "has offset, energies, samples, info changed, and the ORIGINAL is compared with its earlier snapshot (labels first); NumPy scalars "
+        "and Fractions INSIDE tuple labels (any depth for Variables; the generated ('k', i) labels for BQMs and sample sets) through JSON text "
+        "and DimodEncoder; SampleSet(record, variables, info, vartype) built from a caller-assembled record with another field order "
+        "(energy first, sample last, reversed, rotated). "
         "non-trivial = object has at least one variable/row/element; distinct by case JSON")
 TRUSTED = ["model: coq/theories/Model/{Comb,Ser,Poly,ChkC11}.v (hand written mirror of sampleset.py to/from_serializable, "
            "serialization/utils.py, variables.py serialize_variable/deserialize_variable)",
